@@ -38,6 +38,7 @@ func TestFamily(t *testing.T) {
 	famC19(r, &pure, env)
 	famStore(r, &hist, env)
 	famClient(r, &hist, env)
+	famUpgrade(r, &hist, env)
 	// store and client histories alternate; one history after every len(pure)/len(hist) pure records
 	nh := len(hist.recs)
 	order := make([]rec, 0, nh)
